@@ -13,7 +13,7 @@ from c04 import enc_entries, dec_env
 
 # layer names: plain, dotted (stem = another layer), and legal names with characters that are special somewhere else (quotes,
 # backslash, tab, leading / trailing space - "deps " and "deps" are two layers -, non-ASCII). A history uses three of them.
-NAMES = ["a", "a.b", "c-1", "deps", "deps ", " lead", "it's", 'q"x', "tab\tname", "é", "back\\slash", "a b"]
+NAMES = ["a", "a.b", "a.sbom.x", "c-1", "deps", "deps ", " lead", "it's", 'q"x', "tab\tname", "é", "back\\slash", "a b"]      # "a.sbom.x" is a layer of its own, not an SBOM file of "a"
 UMASK = 0o022       # umask of the executor process of this shard (set by shard_run)
 SYMS = ["K1", "U1", "R1", "E1", "K2", "U2", "M2e", "D", "Rst", "Kb", "Ce"]
 MKEY = {"v1": "v", "v2": "version", "defaults": "v"}
@@ -37,6 +37,10 @@ def gen_result(r, fail=None):
     spec["delete_files"] = r.sample(["data.txt", "bin/tool", "deep/er/f"], r.choice([0, 0, 1]))
     # links inside the layer: dangling, to a file, to a directory
     spec["symlinks"] = [[n, t] for n, t in r.sample([("current", "releases/nowhere"), ("latest", "data.txt"), ("cur-dir", "bin"), ("loop", "loop")], r.choice([0, 0, 1, 2]))]
+    if r.random() < 0.12:
+        # (only update() has a LayerData to take it from) return the env that was handed in, possibly after clearing the env dirs by hand
+        spec["env_same_as_data"] = True
+        spec["wipe_env_dirs"] = r.random() < 0.7
     return spec
 
 
@@ -211,6 +215,10 @@ def judge(step, rep, pre, post, names, layers, src, sh, case):
             sh.violation("%s:metadata" % action, "%s: metadata on disk %r, %s() returned %r" % (what, md, action, {key: want_md_value}), case)
             return None
         want_env = envmodel.expected_tree([tuple(e) for e in (spec.get("env") or [])])
+        if action == "update" and spec.get("env_same_as_data"):
+            # update() handed back the env it was given (LayerData.env): on disk afterwards is that env - whatever the callback did
+            # to the env directories in the meantime
+            want_env = {k: e[2] for k, e in v0["dir"].items() if k.split(b"/")[0] in ENVROOTS and e[0] == "f"}
         got_env = {k: e[2] for k, e in v1["dir"].items() if k.split(b"/")[0] in ENVROOTS and e[0] == "f"}
         if got_env != want_env:
             sh.violation("%s:env" % action, "%s: env files on disk %r, %s() returned %r" % (what, sorted(got_env), action, sorted(want_env)), case)
